@@ -277,15 +277,11 @@ Lemma wf_subnet_size : forall s, wf_subnet s = true ->
   subnet_size s = 2 ^ (32 - s_ones s) /\ 1 <= subnet_size s /\ s_base s + subnet_size s <= two32.
 Proof.
   unfold wf_subnet, subnet_size. intros s H.
-  rewrite !andb_true_iff in H. destruct H as [[[[[_ H3] H2] H1] H0] _].
-  apply N.leb_le in H3, H2. apply N.ltb_lt in H1. apply N.eqb_eq in H0.
+  rewrite !andb_true_iff in H. destruct H as [[[[_ H2] H1] H0] _].
+  apply N.leb_le in H2. apply N.ltb_lt in H1. apply N.eqb_eq in H0.
   assert (P : two32 = 2 ^ s_ones s * 2 ^ (32 - s_ones s)).
   { rewrite <- N.pow_add_r. replace (s_ones s + (32 - s_ones s)) with 32 by lia. reflexivity. }
   assert (0 < 2 ^ (32 - s_ones s)) by (apply N.neq_0_lt_0, N.pow_nonzero; lia).
-  assert (2 <= 2 ^ s_ones s).
-  { replace 2 with (2 ^ 1) at 1 by reflexivity. apply N.pow_le_mono_r; lia. }
-  assert (L : 2 ^ (32 - s_ones s) < two32) by nia.
-  rewrite N.mod_small by exact L.
   split; auto. split; [lia|].
   apply N.mod_divide in H0; [|lia]. destruct H0 as [k Hk].
   remember (2 ^ (32 - s_ones s)) as X. remember (2 ^ s_ones s) as Y.
@@ -475,7 +471,7 @@ Proof.
     rewrite T. simpl (transport_min =? transport_min).
     assert (0 <? c_rmin cfg = true) as -> by (apply N.ltb_lt; lia).
     simpl e_fnum. simpl e_fden. rewrite Ch.
-    unfold wf_subnet in Ws. rewrite !andb_true_iff in Ws. destruct Ws as [[[[[Ws _] _] _] _] _]. rewrite Ws. simpl negb. cbv iota.
+    unfold wf_subnet in Ws. rewrite !andb_true_iff in Ws. destruct Ws as [[[[Ws _] _] _] _]. rewrite Ws. simpl negb. cbv iota.
     unfold rand_host. destruct (rand_int_zero (subnet_size s) [] S1) as [rest' ->].
     rewrite N.add_0_r, N.mod_small by (unfold two32 in *; lia). reflexivity.
   - unfold in_subnet. rewrite <- Sz. lia.
@@ -509,9 +505,140 @@ Proof.
     rewrite Dis. simpl negb.
     assert (0 <? c_rprefix cfg = true) as -> by (apply N.ltb_lt; lia). simpl andb. cbv iota.
     simpl e_fnum. simpl e_fden. rewrite Ch.
-    unfold wf_subnet in Ws. rewrite !andb_true_iff in Ws. destruct Ws as [[[[[Ws _] _] _] _] _]. rewrite Ws. simpl negb. cbv iota.
+    unfold wf_subnet in Ws. rewrite !andb_true_iff in Ws. destruct Ws as [[[[Ws _] _] _] _]. rewrite Ws. simpl negb. cbv iota.
     unfold rand_host. destruct (rand_int_zero (subnet_size s) [] S1) as [rest' ->].
     simpl e_subnet_params. rewrite Sp.
     rewrite N.add_0_r, N.mod_small by (unfold two32 in *; lia). reflexivity.
   - unfold in_subnet. rewrite <- Sz. lia.
+Qed.
+
+(* ---------------- the front ends preserve the view ---------------- *)
+Lemma api_request_payload : forall sg q q' cc,
+  api_request sg q = (q', cc) ->
+  q' = q \/ exists g, q' = set_gen q g.
+Proof.
+  unfold api_request. intros sg q q' cc H. destruct sg as [g|]; [|inv H; auto].
+  destruct (payload_gen q <? g); inv H; eauto.
+Qed.
+
+Lemma set_gen_payload : forall q g c', q_payload (set_gen q g) = Some c' ->
+  exists c, q_payload q = Some c /\ p_params c' = p_params c /\ p_disable_ov c' = p_disable_ov c /\
+            p_v4 c' = p_v4 c /\ p_v6 c' = p_v6 c /\ p_transport c' = p_transport c.
+Proof.
+  unfold set_gen. intros q g c' H. destruct (q_payload q) as [c|] eqn:E.
+  - simpl in H. inv H. exists c. simpl. repeat split; reflexivity.
+  - rewrite E in H. discriminate.
+Qed.
+
+(* a 200 from the API: the response the client receives is the processor's, which is the one
+   attached to (and signed in) the forwarded message; only the ClientConf is added *)
+Lemma api_preserves_view : forall cfg sg bl q remote e o,
+  api_bd cfg sg bl q remote e = Some o -> fe_status o = 200 ->
+  exists rs w q' cc,
+    fe_resp o = Some rs /\ fe_fwd o = Some w /\ fe_cc o = cc /\
+    api_request sg q = (q', cc) /\
+    register_bd cfg q' remote source_bdapi e = Ok (rs, w) /\
+    f_resp w = Some rs /\ (c_auth cfg = true -> f_signed w = Some rs).
+Proof.
+  unfold api_bd. intros cfg sg bl q remote e o H St.
+  destruct remote as [addr|]; [|inv H; discriminate].
+  destruct (bl <? 33); [inv H; discriminate|].
+  destruct (api_request sg q) as [q' cc] eqn:A.
+  destruct (register_bd cfg q' (Some addr) source_bdapi e) as [[rs w]|x|] eqn:R; try discriminate.
+  - inv H. exists rs, w, q', cc. simpl.
+    destruct (same_view _ _ _ _ _ _ _ R) as [Fr [Fs _]]. repeat split; auto.
+  - destruct x; inv H; discriminate.
+Qed.
+
+Lemma api_station_applies : forall cfg sg bl q remote e o rs w sc svs sv,
+  api_bd cfg sg bl q remote e = Some o -> fe_resp o = Some rs -> fe_fwd o = Some w ->
+  station sc w = Some svs -> In sv svs ->
+  exists c, q_payload q = Some c /\
+  (exists port, r_port rs = Some port /\ sv_port sv = port mod 65536) /\
+  (sv_v6 sv = true -> r_v6 rs = Some (sv_phantom sv)) /\
+  (sv_v6 sv = false -> exists a, r_v4 rs = Some a /\ (a <> 0 -> sv_phantom sv = be4 a)) /\
+  (exists own own_port, st_new_reg sc (sv_v6 sv) (effective_params c (Some rs)) = Some (own, own_port, sv_params sv)).
+Proof.
+  unfold api_bd. intros cfg sg bl q remote e o rs w sc svs sv H Hr Hw Hst Hin.
+  destruct remote as [addr|]; [|inv H; discriminate].
+  destruct (bl <? 33); [inv H; discriminate|].
+  destruct (api_request sg q) as [q' cc] eqn:A.
+  destruct (register_bd cfg q' (Some addr) source_bdapi e) as [[rs' w']|x|] eqn:R; try discriminate.
+  2: { destruct x; inv H; discriminate. }
+  inv H. simpl in Hr, Hw. inv Hr. inv Hw.
+  destruct (station_in _ _ _ _ Hst Hin) as [c' [Hc' _]].
+  destruct (same_view _ _ _ _ _ _ _ R) as [_ [_ [_ [Fp _]]]]. rewrite Fp in Hc'.
+  pose proof (station_applies _ _ _ _ _ _ _ _ _ _ _ R Hc' Hst Hin) as [P1 [P2 [P3 P4]]].
+  destruct (api_request_payload _ _ _ _ A) as [->|[g ->]].
+  - exists c'. auto.
+  - destruct (set_gen_payload _ _ _ Hc') as [c [Hc [Ep [Ed _]]]]. exists c. repeat split; auto.
+    destruct P4 as [own [op P4]]. exists own, op.
+    assert (effective_params c (Some rs) = effective_params c' (Some rs)) as ->; auto.
+    unfold effective_params. rewrite Ep, Ed. reflexivity.
+Qed.
+
+Lemma dns_preserves_view : forall cfg lg q e o rs,
+  dns_req cfg lg q e = Some o -> fe_resp o = Some rs ->
+  exists w, fe_fwd o = Some w /\ register_bd cfg q None source_bddns e = Ok (rs, w) /\
+            f_resp w = Some rs /\ (c_auth cfg = true -> f_signed w = Some rs).
+Proof.
+  unfold dns_req. intros cfg lg q e o rs H Hr.
+  destruct (q_source q =? source_bddns).
+  - destruct (register_bd cfg q None source_bddns e) as [[rs' w]|x|] eqn:R; try discriminate.
+    + inv H. simpl in Hr. inv Hr. exists w. simpl.
+      destruct (same_view _ _ _ _ _ _ _ R) as [Fr [Fs _]]. repeat split; auto.
+    + inv H. discriminate.
+  - destruct (register_uni cfg q None source_dns) as [w|x|]; try discriminate; inv H; discriminate.
+Qed.
+
+(* a front end answers with a response only if the registration was published *)
+Lemma front_end_response_implies_published : forall o,
+  (forall cfg sg bl q remote e, api_bd cfg sg bl q remote e = Some o -> is_some (fe_resp o) = true -> is_some (fe_fwd o) = true) /\
+  (forall cfg lg q e, dns_req cfg lg q e = Some o -> is_some (fe_resp o) = true -> is_some (fe_fwd o) = true).
+Proof.
+  intros o. split.
+  - unfold api_bd. intros cfg sg bl q remote e H Hr.
+    destruct remote as [addr|]; [|inv H; discriminate].
+    destruct (bl <? 33); [inv H; discriminate|].
+    destruct (api_request sg q) as [q' cc].
+    destruct (register_bd cfg q' (Some addr) source_bdapi e) as [[rs w]|x|]; try discriminate.
+    + inv H. reflexivity.
+    + destruct x; inv H; discriminate.
+  - unfold dns_req. intros cfg lg q e H Hr.
+    destruct (q_source q =? source_bddns).
+    + destruct (register_bd cfg q None source_bddns e) as [[rs w]|x|]; try discriminate; inv H; auto; discriminate.
+    + destruct (register_uni cfg q None source_dns) as [w|x|]; try discriminate; inv H; auto; discriminate.
+Qed.
+
+(* ---------------- ports fit in 16 bits, so the station's port is exactly the client's ---------------- *)
+Lemma bd_port_small : forall cfg q e rs port,
+  cfg_accepted cfg = true -> (forall d, e_dstport e = Some d -> d < 65536) ->
+  process_bd_req cfg q e = Ok rs -> r_port rs = Some port -> port < 65536.
+Proof.
+  intros cfg q e rs port A D H Hp. apply process_bd_req_inv in H.
+  destruct H as [c [r [Hq [B S]]]].
+  apply base_response_spec in B. destruct B as [_ [_ [[p0 [P0 Pd]] _]]].
+  assert (p0 < 65536) as L0.
+  { destruct (supports_rand c e); [apply D; auto|]. inv Pd. lia. }
+  apply subnet_override_spec in S. destruct S as [->|S]; [congruence|].
+  destruct S as [_ [_ [gate [rest [i [s [ip [_ [Ch [_ [_ S]]]]]]]]]]].
+  destruct S as [S|S].
+  - destruct S as [_ [_ ->]]. simpl in Hp. congruence.
+  - destruct S as [T [_ [_ [sp [_ ->]]]]]. simpl in Hp. inv Hp.
+    apply choose_spec in Ch. destruct Ch as [Nth _]. apply nth_error_In in Nth.
+    unfold subnets_for in Nth. rewrite T in Nth. simpl in Nth.
+    unfold cfg_accepted in A. rewrite forallb_forall in A.
+    specialize (A s). apply N.ltb_lt. apply A. apply in_or_app. right. apply in_or_app. left. auto.
+Qed.
+
+Lemma station_port_exact : forall cfg q ca m e rs w c sc svs sv,
+  cfg_accepted cfg = true -> (forall d, e_dstport e = Some d -> d < 65536) ->
+  register_bd cfg q ca m e = Ok (rs, w) -> q_payload q = Some c ->
+  station sc w = Some svs -> In sv svs ->
+  r_port rs = Some (sv_port sv).
+Proof.
+  intros cfg q ca m e rs w c sc svs sv A D H Hq Hst Hin.
+  destruct (station_applies _ _ _ _ _ _ _ _ _ _ _ H Hq Hst Hin) as [[port [Hp Hs]] _].
+  apply register_bd_inv in H. destruct H as [B _].
+  pose proof (bd_port_small _ _ _ _ _ A D B Hp). rewrite Hs, N.mod_small; auto.
 Qed.
